@@ -289,8 +289,47 @@ func (g *evGen) act(h int, prio int64, d int) term.T {
 	}
 }
 
+// genEventsLong: state that only differs after MANY uses of one handler: 70-140 emissions on a handler
+// whose first listener cancels (or just rewrites) most of them, a second listener behind it that sees
+// the ones that get through, sometimes a subscription half way.
+func genEventsLong(r *term.Rng) term.T {
+	allKinds := []string{"KSimple", "KPriority", "KMutable", "KCancel"}
+	k0 := "KCancel"
+	if r.Chance(1, 3) {
+		k0 = term.Pick(r, allKinds)
+	}
+	kinds := []term.T{term.C(k0)}
+	if r.Bool() {
+		kinds = append(kinds, term.C(term.Pick(r, allKinds)))
+	}
+	n := r.Range(70, 140)
+	rs := []term.T{}
+	for i := 0; i < n; i++ {
+		x := term.C("XAdd", term.I(int64(r.Range(0, 2))))
+		rs = append(rs, term.C("mkR", x, term.B(r.Chance(9, 10)), term.L()))
+	}
+	ops := []term.T{term.C("OInit", term.L(term.I(100))),
+		term.C("OSub", term.Nat(0), term.I(int64(r.Range(-1, 1))), term.L(rs...)),
+		term.C("OSub", term.Nat(0), term.I(int64(r.Range(2, 5))), term.L())}
+	half := r.Range(0, n)
+	for i := 0; i < n+r.Range(3, 8); i++ {
+		if i == half && r.Bool() {
+			ops = append(ops, term.C("OSub", term.Nat(0), term.I(int64(r.Range(-3, 6))), term.L()))
+		}
+		h := 0
+		if len(kinds) > 1 && r.Chance(1, 10) {
+			h = 1
+		}
+		ops = append(ops, term.C("OEmit", term.Nat(h), term.I(int64(r.Range(-9, 9)))))
+	}
+	return term.Tup(term.L(kinds...), term.L(ops...))
+}
+
 func genEvents(r *term.Rng, idx int) term.T {
 	allKinds := []string{"KSimple", "KPriority", "KMutable", "KCancel"}
+	if r.Chance(1, 12) {
+		return genEventsLong(r)
+	}
 	nh := r.Range(2, 6)
 	if r.Chance(1, 4) {
 		nh = r.Range(1, 2) // few handlers: everything collides on the same listener slice
